@@ -97,17 +97,17 @@ EXTRA = {
     "C02": "Variants are also read through the typed path with reader types knowing only some variants; Index::is_empty; index free data/key looked for by the independent decoder; late duplicates in value stores; signed references. Every property is also read through its specialised builder (IntProperty/SignedProperty/ArrayProperty/ContentProperty); every second index is created with a lazy offset (the handle of an entry). An array of exactly 2^24 bytes must be refused or stored unaltered.",
     "C03": "Every probe also goes through the library's PropertyCompare, including on a column the store is not sorted on; width-alias probes (key + 2^8/2^16/2^32).",
     "C04": "Entry points asked after every alteration: the pack's check, Container::check and the file-level ContainerPack::check; CRC-fixing edits; bases with >4 KiB tables, two content packs in one file, two content packs sharing one external file, a pack stored twice. The live phase also asks check() of the pack objects the container hands out, before and after the alteration. Packs are handed to ContainerPackCreator::add_pack through a reader returning short reads.",
-    "C05": "Big-table bases (mmap path), large compressed clusters, hand-assembled multi-pack bases with free data; the manifest pack opened on its own (pack list, free data by id and uuid) is part of the compared answers. Bases whose blocks are exact multiples of 1 KiB; loose pack files opened one by one on whole-file readers. A base with twelve indexes; 'no such index' is compared as a structural answer.",
+    "C05": "Big-table bases (mmap path), large compressed clusters, hand-assembled multi-pack bases with free data; the manifest pack opened on its own (pack list, free data by id and uuid) is part of the compared answers. Bases whose blocks are exact multiples of 1 KiB; loose pack files opened one by one on whole-file readers. A base with twelve indexes; 'no such index' is compared as a structural answer. The big-directory base holds 10 000 entries (entry data above 64 KiB).",
     "C06": "Concurrent readers in the reader child (several sleepers on one failing decoder); replacement of a pack by another valid container; sound blocked-forever criterion. Loose pack files of the low-level creators (incl. an empty content pack) opened on whole-file readers; bases with exact-KiB blocks. Sound spinning-forever criterion (exactly one thread awake, thousands of system calls all of them sched_yield in two traced windows more than 20 s apart); a base with two indexes over one store. Thorough tier: a base of 270 000 contents (tables above 1 MiB).",
-    "C07": "S3: readers that are rayon workers (own pools of 1-6 threads and the global pool); regions held across cache evictions; uncompressed file-backed packs. S4: threads released together on the entry/value stores of a freshly opened container (shared storages). S5 hammer: up to 16 threads x 60 000 tiny reads on one pack, jumping between clusters. S6: long-lived reader threads under which two packs with different bytes under the same content numbers are opened and closed in turn.",
-    "C08": "C16's storage oracle inside every perturbed run; very slow workers; file-backed contents at cluster openings. Lone incompressible clusters at offset-width boundaries, hint-Detect segments, file sub-range sources. Single contents of 9/17/33 MiB with 1, 2, 3 and 15 visible cpus.",
+    "C07": "S3: readers that are rayon workers (own pools of 1-6 threads and the global pool); regions held across cache evictions; uncompressed file-backed packs. S4: threads released together on the entry/value stores of a freshly opened container (shared storages). S5 hammer: up to 16 threads x 60 000 tiny reads on one pack, jumping between clusters. S6: long-lived reader threads under which two packs with different bytes under the same content numbers are opened and closed in turn. S7: up to 32 threads released together on one compressed cluster nobody has asked for, 500..1500 fresh pack objects per case.",
+    "C08": "C16's storage oracle inside every perturbed run; very slow workers; file-backed contents at cluster openings. Lone incompressible clusters at offset-width boundaries, hint-Detect segments, file sub-range sources. Single contents of 9/17/33 MiB with 1, 2, 3 and 15 visible cpus. A producer pausing for 2.6 s and 4.6 s in the middle of a creation.",
     "C09": "Rename obstruction and unreadable-input faults next to process death and ENOSPC. Retry after a crash (a smaller container created among the leftovers of a killed run); entry-point names of 150..250 bytes. Entry-point names holding a backslash, a colon, a space and %, non-ASCII letters.",
-    "C10": "Prefix before concat outputs, concat of concats, external pack files behind a prefix, extra packs in sub- and sibling directories, pack ids across 255/256 and 65535; independent decoder on concat outputs. File names with ':' ' ' '%' '#' '?' non-ASCII letters, several dots, no extension; contents asked again on a fresh container last pack first. Every second case embeds the entry point of the multi-file packagings itself at the end of a foreign file. Half of the prefixes end around multiples of 16 KiB; concat of a file followed by a bundle that contains it.",
-    "C11": "Five causes of unavailability incl. a location pointing at another pack; a damaged present pack next to an absent one; alternative packs sharing an id. Contents asked again last pack first; a missing pack put back while the container is open. Every answer is cross-checked through MayMissPack::transpose / get / map / as_ref and get_pack. Sixth kind of unavailability: the twin (same container built again: same sizes, other uuids); replaced packs are put back under the open container.",
-    "C12": "Low-level containers with large free data, directory pack not declared first, manifests of 270/300 packs with every location rewritten. The pack-info array at every offset modulo 256 (301 fixed cases); a container kept open across the rewrites. Locations holding the character U+0000. 86 (thorough: 256) manifests of 260 packs move the 64 KiB mark of the check stream over the bytes of a pack info.",
+    "C10": "Prefix before concat outputs, concat of concats, external pack files behind a prefix, extra packs in sub- and sibling directories, pack ids across 255/256 and 65535; independent decoder on concat outputs. File names with ':' ' ' '%' '#' '?' non-ASCII letters, several dots, no extension; contents asked again on a fresh container last pack first. Every second case embeds the entry point of the multi-file packagings itself at the end of a foreign file. Half of the prefixes end around multiples of 16 KiB; concat of a file followed by a bundle that contains it. The entry point opened through a symbolic link with the other packs beside the link.",
+    "C11": "Five causes of unavailability incl. a location pointing at another pack; a damaged present pack next to an absent one; alternative packs sharing an id. Contents asked again last pack first; a missing pack put back while the container is open. Every answer is cross-checked through MayMissPack::transpose / get / map / as_ref and get_pack. Sixth kind of unavailability: the twin (same container built again: same sizes, other uuids); replaced packs are put back under the open container. Four concurrent readers on a container with a missing pack; a location respelled as a file: URL (missing, or served and then covered by the check).",
+    "C12": "Low-level containers with large free data, directory pack not declared first, manifests of 270/300 packs with every location rewritten. The pack-info array at every offset modulo 256 (301 fixed cases); a container kept open across the rewrites. Locations holding the character U+0000. 86 (thorough: 256) manifests of 260 packs move the 64 KiB mark of the check stream over the bytes of a pack info. Locations that look like URLs or drive paths.",
     "C13": "Streams disturbed between reads by other accesses to the same source. Views longer than 65535 bytes.",
-    "C14": "Many-packs containers (3/255/300) with distinct free data in every header and in the manifest, compared by the independent decoder and read back by id and uuid. Indexes created with lazy offsets; typed property builders.",
-    "C15": "Trees sorted on the reference itself, plain and bound values in one column, signed references, cross-store references (referenced store of up to 30000 entries). A tree whose roots carry a plain number k > 0 may be refused by the creator (no consistent order need exist): accepted as a refusal, counted.",
+    "C14": "Many-packs containers (3/255/300) with distinct free data in every header and in the manifest, compared by the independent decoder and read back by id and uuid. Indexes created with lazy offsets; typed property builders. Many-packs cases in which every pack, the directory pack included, carries free data.",
+    "C15": "Trees sorted on the reference itself, plain and bound values in one column, signed references, cross-store references (referenced store of up to 30000 entries). A tree whose roots carry a plain number k > 0 may be refused by the creator (no consistent order need exist): accepted as a refusal, counted. Every second tree lives in a store of boxed entries.",
     "C16": "Same-hint runs filling raw clusters, near-duplicates of cluster size for the dedup adder; the storage oracle also runs under C08's schedules. 435 fixed tiny compressed clusters per run (stored size sometimes equal to the data size). 70 000 distinct contents between two insertions of the same bytes through the dedup adder.",
 }
 
